@@ -517,9 +517,13 @@ pub fn program(u: &Universe) -> String {
         s.push_str(&g.full_fn(t));
         s.push_str(&g.eps_fn(t, &m));
     }
+    // one small function per type: a single function with hundreds of statements overflows the stack at opt-level 0
+    for (k, t) in g.types.iter().enumerate() {
+        let _ = writeln!(s, "#[inline(never)] fn lay_{}(l: &mut Layouts, units: &mut BTreeMap<String, usize>) {{\n{}}}", k, g.layout_stmt(t));
+    }
     s.push_str("\npub fn layouts() -> (Layouts, BTreeMap<String, usize>) {\n    let mut l = Layouts::default();\n    let mut units: BTreeMap<String, usize> = BTreeMap::new();\n");
-    for t in &g.types {
-        s.push_str(&g.layout_stmt(t));
+    for k in 0..g.types.len() {
+        let _ = writeln!(s, "    lay_{}(&mut l, &mut units);", k);
     }
     s.push_str("    (l, units)\n}\n\n");
     for (j, t) in u.subjects.iter().enumerate() {
